@@ -113,6 +113,7 @@ def run(repo, rep, tier):
 
     close_always_releases(repo, rep)
     state_is_per_instance(repo, rep)
+    timeout_zero_is_never(repo, rep, 'C14.R15')
     from .c13 import adapter_keys_agree
     adapter_keys_agree(repo, rep, 'C14.R14', lambda op: op.startswith(
         ('Open', 'Pull', 'Close')), 40)
@@ -893,3 +894,84 @@ def state_is_per_instance(repo, rep):
                     'MainProvider.__init__: it is not per provider object')
     if ncls < 10:
         raise AnalysisError('C14.R11: only %d classes scanned' % ncls)
+
+
+def expiry_tests(func):
+    """comparisons of something against the stored operation timeout of an
+    enumeration session"""
+    out = []
+    for n in walk_no_nested(func.node):
+        if isinstance(n, ast.Compare) and len(n.ops) == 1 and \
+                isinstance(n.ops[0], (ast.Gt, ast.GtE, ast.Lt, ast.LtE)):
+            sides = [n.left, n.comparators[0]]
+            for i, sd in enumerate(sides):
+                txt = norm(sd, 200)
+                other = sides[1 - i]
+                elapsed = any(isinstance(x, ast.BinOp) and
+                              isinstance(x.op, ast.Sub)
+                              for x in ast.walk(other)) or any(
+                    w in norm(other, 200).lower()
+                    for w in ('elapsed', 'age', 'since'))
+                if 'timeout' in txt.lower() and \
+                        not isinstance(sd, ast.Constant) and elapsed:
+                    out.append((n, sd))
+    return out
+
+
+def timeout_zero_is_never(repo, rep, rid):
+    """An expiry test of an enumeration session honours OperationTimeout=0,
+    which DSP0200 (and the Open... documentation) define as "never time
+    out".  `elapsed > timeout` treats 0 as "expired at once": every Pull
+    after an Open with OperationTimeout=0 is refused, so the enumeration
+    never reaches eos and the Iter* generator raises after its first
+    batch.  The comparison must run under a fact that the timeout is
+    non-zero (truthy, != 0, > 0)."""
+    from ..cfg import stmt_facts, expr_guards
+    r = rep.rule(rid, 'expiry tests of enumeration sessions treat the '
+                 'timeout 0 as never')
+    mp = repo.cls(MAIN, 'MainProvider')
+    n = 0
+    for name, f in sorted(mp.methods.items()):
+        tests = expiry_tests(f)
+        if not tests:
+            continue
+        sf = stmt_facts(f.node)
+        for cmp_, tmo in tests:
+            n += 1
+            r.sites += 1
+            r.functions.add(f.fq)
+            tt = norm(tmo, 200)
+            st = next((s_ for s_ in sf if any(x is cmp_
+                                              for x in ast.walk(s_))), None)
+            fs = list(sf.get(st, ((), ()))[0]) if st is not None else []
+            fs += list(expr_guards(st, cmp_)) if st is not None else []
+            ok = False
+            for t, pol in fs:
+                if t is cmp_:
+                    continue
+                if norm(t, 200) == tt and pol:
+                    ok = True
+                if isinstance(t, ast.Compare) and len(t.ops) == 1 and \
+                        norm(t.left, 200) == tt and \
+                        isinstance(t.comparators[0], ast.Constant) and \
+                        t.comparators[0].value == 0 and \
+                        ((isinstance(t.ops[0], (ast.NotEq, ast.Gt)) and pol)
+                         or (isinstance(t.ops[0], ast.Eq) and not pol)):
+                    ok = True
+            r.ob(ok, '%s|%s' % (name, norm(cmp_, 60)))
+            if not ok:
+                rep.finding(r, f.qualname, norm(cmp_, 70), 'zero-expires',
+                            MAIN, cmp_.lineno,
+                            'the session is expired by %s without a test '
+                            'that the timeout is non-zero: OperationTimeout=0 '
+                            '("never time out") makes every Pull fail with '
+                            'an expired context' % norm(cmp_, 60))
+    r.sites += 1
+    r.ob(True, 'expiry-tests', {'found': n})
+    probe = ast.parse("def f(self, c):\n    if now - c['time'] > "
+                      "c['interoptimeout']:\n        pass\n").body[0]
+
+    class _F:
+        node = probe
+    if len(expiry_tests(_F)) != 1:
+        raise AnalysisError(rid + ' recogniser broken')
